@@ -133,7 +133,7 @@ def part_signing(ctx, wt, m, n, how, thorough):
         txn[0] += 1
         txid = '%064x' % (0xabc000 + txn[0])
         # the spent outputs: one or two, with output numbers that differ from their position in the spend
-        outns = ctx.rng.choice([[0], [1], [3], [2, 0], [1, 4]])
+        outns = ctx.rng.choice([[0], [3], [2, 0], [1, 4], [2, 0], [1, 4, 0]])
         for w_ in ws:
             for on in outns:
                 w_.utxo_add(addr, 1000000, txid, on, confirmations=3)
@@ -265,8 +265,6 @@ def run(ctx):
                 if rp and rp['replay'].get('handoff') not in (None, how):
                     continue
                 if rp and rp['replay'].get('op') == 'address' and 'handoff' not in rp['replay']:
-                    continue
-                if not T and (m, n) == (2, 3) and how == 'dict':
                     continue
                 part_signing(ctx, wt, m, n, how, T)
     ctx.assumptions += ['cosigner keys are derived from independent seeds; the expected script is computed from the seeds alone with the Lean BIP32, '
